@@ -19,8 +19,9 @@ CHECKS = {
     'C03': dict(
         text='Every transfer type/mode with ONE fault at a symbolic index over all environment calls and symbolic phase '
              '(fault enumeration done by the solver, not by a loop): never success after a delivered fault, raised '
-             'exception is an injected one, success implies the complete effect; retry budget with symbolic fault '
-             'positions.  Bound: single request and 2-part shapes, serial schedule; fault pairs in thorough tier.',
+             'exception is an injected one, success implies the complete effect; the exception TYPE of the fault '
+             'symbolic as well (a non-stream failure of a retryable type is still a failure); retry budget with '
+             'symbolic fault positions.  Bound: single request and 2-part shapes, serial schedule; fault pairs in thorough tier.',
         note=_NOTE + '; faults land only on environment calls', technique=_T + _CO),
     'C04': dict(
         text='Real manager over model executor + model threading (owner-tracking locks: self-deadlock is definite; '
@@ -38,8 +39,11 @@ CHECKS = {
     'C06': dict(
         text='Crash-point invariant evaluated after every FS operation of an in-memory file system, one symbolic fault, '
              'destination pre-existing or not; TransferManager and legacy S3Transfer (single + ranged, the ranged '
-             'path with a symbolic order of its pool tasks); fault pairs; no temporary file at the done instant.',
-        note=_NOTE + '; os.rename atomicity trusted; real OS not involved', technique=_T),
+             'path with a symbolic order of its pool tasks); fault pairs; no temporary file at the done instant; the '
+             'temporary name itself (different path, same directory, accepted length) for every destination name.',
+        note=_NOTE + '; os.rename atomicity trusted; real OS not involved; cvc5 1.0.3 string solver trusted for C06.5',
+        technique=_T + '; OSUtils.get_temp_filename translated from its source into SMT-LIB strings and decided by '
+        'cvc5 (every destination name of 1..255 characters)'),
     'C07': dict(
         text='Cancellation injected at a symbolic scheduling point (before the k-th task start for the five entry '
              'points; inside the n-th environment call for future.cancel()), symbolic nested-start choices, real '
@@ -95,7 +99,8 @@ CHECKS = {
         text='Three transfers of different types on one real manager over model executors; which one fails (symbolic '
              'fault index) or is cancelled (symbolic point) is decided by the solver; isolation oracle per transfer, '
              'then shutdown barrier (no event after return, executors closed) or a fresh transfer.',
-        note=_NOTE + '; nested (LIFO) schedules only', technique=_T + ' over nested schedules'),
+        note=_NOTE + '; nested (LIFO) schedules only', technique=_T + ' over nested schedules; distinct temporary '
+        'names of concurrent downloads by an SMT-LIB (strings) translation of get_temp_filename decided by cvc5'),
     'C14': dict(
         text='Planning kernels confirmed over all paths at real scale (size <= 5 TiB, chunk <= 8 GiB, symbolic part '
              'index): every input in the stated domain is covered by the solver, not sampled. Bounded claim: the '
